@@ -94,6 +94,13 @@ def gen_hist_spec(rng):
         if rng.random() < 0.25 and sum(1 for m in sp["nodes"] if m["fn"] == fn) == 1:
             sp["fns"][fn]["shape"] = ["none"]
     sp["is_async"] = rng.random() < 0.4
+    if rng.random() < 0.4:
+        # activation flags taken from SETUP results: whether a node runs is only known once its setup node has a value
+        for i in range(n):
+            earlier = [j for j in sorted(setup) if j < i]
+            users = [m for m in sp["nodes"] if any(a[0] == "n" and a[1] == i for a in list(m["args"]) + list(m["kwargs"].values()))]
+            if i not in setup and earlier and not users and rng.random() < 0.5:
+                sp["nodes"][i]["active"] = ["n", rng.choice(earlier), []]
     if rng.random() < 0.5:
         # tags as aliases: shared between functions, and substrings of each other ("m_1" in "m_10", "xm_1")
         for fn in sorted(sp["fns"]):
@@ -127,6 +134,8 @@ def c11_history(col, rng, hidx, jobref=None):
     pid = (jobref or {}).get("pid", "C11")
     col = _Filtered(col, (jobref or {}).get("only"))
     sp, setup = gen_hist_spec(rng)
+    if (jobref or {}).get("require_flags") and not any(nd.get("active") for nd in sp["nodes"]):
+        return  # (this property's clauses only concern programs with activation flags)
     plain = S.make_fns(sp)
     ids = S.node_ids(sp)
     n = len(ids)
@@ -140,7 +149,57 @@ def c11_history(col, rng, hidx, jobref=None):
     for step in range(rng.randint(3, 10)):
         k = rng.choice(list(insts))
         d, m = insts[k], model[k]
-        op = rng.choice(["call", "call", "exec", "exec", "setup", "setup_t", "copy", "exec_create", "exec_run_pending", "config", "exec_setup"])
+        op = rng.choice(["call", "call", "exec", "exec", "setup", "setup_t", "copy", "exec_create", "exec_run_pending", "config", "exec_setup",
+                         "foreign_cache"])
+        if op == "foreign_cache":
+            # another instance (a deep copy with its OWN setup values) writes a cache file; this instance then runs an executor
+            # started from that file.  Whatever that run returns (not judged here): the setup values this instance already had
+            # stay its values, and no setup node it had already run runs again.
+            others = [q for q in insts if q != k]
+            if not others or not m:
+                continue
+            jx = rng.choice(others)
+            tmpd = tempfile.mkdtemp(prefix="twzc11_")
+            try:
+                path = os.path.join(tmpd, "foreign.pkl")
+                a_ = [Sym("arg", hidx, step, "w")]
+                B.reset_log()
+                rw = probes.run_op("foreign_cache_write", lambda: op_exec(insts[jx], {"cache_in": path}, a_))
+                ent_w, vals_w = observed(B.snapshot())
+                for i in setup:
+                    if ids[i] in vals_w and i not in model[jx]:
+                        model[jx][i] = vals_w[ids[i]]
+                for x, c in ent_w.items():
+                    if x in ids and ids.index(x) in setup:
+                        total_setup_runs[jx][x] = total_setup_runs[jx].get(x, 0) + c
+                if rw[0] != "ok" or not os.path.exists(path):
+                    continue
+                with open(path, "rb") as fh:
+                    cached = pickle.load(fh)  # noqa: S301
+                B.reset_log()
+                rr = probes.run_op("restart_from_foreign_cache", lambda: op_exec(d, {"from_cache": path}, a_))
+                ent_r, vals_r = observed(B.snapshot())
+                hist.append(("executor(from_cache=<file written by instance %d>)" % jx, k, rr[0]))
+                col.counters["c11_restarts_from_a_foreign_cache_file"] += 1
+                for x, c in ent_r.items():
+                    if x in ids and ids.index(x) in setup:
+                        total_setup_runs[k][x] = total_setup_runs[k].get(x, 0) + c
+                        if total_setup_runs[k][x] > 1:
+                            col.violation(pid, "setup_node_ran_more_than_once_on_one_instance", dict(node=x, times=total_setup_runs[k][x], history=hist, source=S.render(sp)), dict(rp, history=list(hist)))
+                if rr[0] == "ok":
+                    for i in setup:
+                        if i not in m:
+                            if ids[i] in cached:
+                                m[i] = cached[ids[i]]  # (setup results found in the file are promoted to the instance)
+                            elif ids[i] in vals_r:
+                                m[i] = vals_r[ids[i]]
+                else:
+                    for i in setup:
+                        if i not in m and ids[i] in vals_r:
+                            m[i] = vals_r[ids[i]]
+            finally:
+                shutil.rmtree(tmpd, ignore_errors=True)
+            continue
         if op == "config":
             # a configuration reload that names a (possibly setup) node must not change what is a setup node
             i = rng.randrange(n)
@@ -233,7 +292,17 @@ def c11_history(col, rng, hidx, jobref=None):
         if res[0] != "ok":
             col.violation(pid, "operation_raised", dict(op=op, exc=repr(res[1])[:300], history=hist, source=S.render(sp)), rp2)
             return
-        exp_run = {ids[i] for i in sel if i not in m}
+        # activity (flags fed by setup results) can only be predicted with the setup values this very operation produced
+        m_after = dict(m)
+        for i in sel:
+            if i in setup and i not in m_after and ids[i] in vals:
+                m_after[i] = vals[ids[i]]
+        act = {}
+        if op in ("call", "exec") and any(nd.get("active") for nd in sp["nodes"]):
+            ref0 = S.run_reference(sp, args, plain, enabled=sel, env_values=dict(m_after))
+            if ref0[0] == "ok":
+                act = ref0[1].active
+        exp_run = {ids[i] for i in sel if i not in m and (i in setup or act.get(i, True))}
         got = set(ent)
         for x, c in ent.items():
             if x in ids and ids.index(x) in setup:
@@ -623,11 +692,26 @@ REGISTRY["replay:c15_case"] = _replay_c15
 
 
 # ------------------------------------------------------------------------------------------------ C18
+MODEL_FREE_18 = ["caching_run_raised", "cache_file_unreadable", "restart_from_cache_raised", "restart_recomputed_cached_nodes",
+                 "restart_from_recached_file_raised", "recached_file_unreadable", "restart_without_cache_file_returned_normally", "setup_raised"]
+
+
 def c18_case(col, rng, cidx, tmpdir, jobref=None):
-    pid = "C18"
+    from tawazi.config import cfg
+
+    old = cfg.RUN_DEBUG_NODES
+    try:
+        return _c18_case(col, rng, cidx, tmpdir, jobref)
+    finally:
+        cfg.RUN_DEBUG_NODES = old
+
+
+def _c18_case(col, rng, cidx, tmpdir, jobref=None):
+    pid = (jobref or {}).get("pid", "C18")
+    col = _Filtered(col, (jobref or {}).get("only"))
     from .sched import gen_shape
 
-    sp = gen_shape(rng, nmin=3, nmax=7, flags=False, reuse=True, mc_max=3)
+    sp = gen_shape(rng, nmin=3, nmax=7, flags=False, reuse=True, mc_max=3, const_objects=0.0)  # (cached values must be picklable)
     sp["is_async"] = rng.random() < 0.3
     dflt18 = rng.random() < 0.3
     if dflt18:
@@ -641,6 +725,20 @@ def c18_case(col, rng, cidx, tmpdir, jobref=None):
         if not uses_param and not reused and all(q in setup18 for q in g.predecessors(i)) and rng.random() < 0.2:
             setup18.add(i)
             sp["fns"][nd["fn"]]["setup"] = True
+    if rng.random() < 0.15:
+        # debug nodes (sinks) with RUN_DEBUG_NODES on for the whole case: cache files may then hold results that are not an
+        # ancestor-closed set.  Only the clauses that need no closure model are judged here: nothing raises, and no node whose
+        # result is in the file runs again.
+        from tawazi.config import cfg
+
+        dbg_sites = [i for i in range(len(sp["nodes"])) if g.out_degree(i) == 0 and i not in setup18
+                     and sum(1 for m_ in sp["nodes"] if m_["fn"] == sp["nodes"][i]["fn"]) == 1 and rng.random() < 0.7]
+        if dbg_sites:
+            for i in dbg_sites:
+                sp["fns"][sp["nodes"][i]["fn"]]["debug"] = True
+            cfg.RUN_DEBUG_NODES = True
+            col = _Filtered(col, MODEL_FREE_18)
+            col.counters["c18_cases_with_debug_nodes_on"] += 1
     plain = {name: probes.mkprobe(name, shape=tuple(fs["shape"]) if fs.get("shape") else None) for name, fs in sp["fns"].items()}
     ids = S.node_ids(sp)
     n = len(ids)
@@ -664,7 +762,14 @@ def c18_case(col, rng, cidx, tmpdir, jobref=None):
     early = None
     if rng.random() < 0.15:
         # a restart executor created (and called once, in vain) BEFORE the cache file exists - e.g. a polling consumer
-        early = d.executor(from_cache=path)
+        try:
+            early = d.executor(from_cache=path)
+        except BaseException as e:  # noqa: BLE001
+            if isinstance(e, (KeyboardInterrupt, SystemExit)):
+                raise
+            col.counters["c18_restart_executor_refused_at_construction:%s" % type(e).__name__] += 1
+            early = None
+    if early is not None:
         re0 = probes.run_op("restart_before_file_exists", lambda: do(d, lambda: early(Sym("arg", cidx)), lambda: _acall(early, [Sym("arg", cidx)])))
         col.counters["c18_restart_called_before_file_exists"] += 1
         if re0[0] == "ok":
@@ -701,6 +806,10 @@ def c18_case(col, rng, cidx, tmpdir, jobref=None):
         return
     cached_sites = {i for i in range(n) if ids[i] in cached}
     col.counters["c18_cache_files"] += 1
+    if mode != "cache_deps_of":
+        lacking = sorted(ids[i] for i in sel1 if ids[i] not in cached)
+        if lacking:
+            col.violation(pid, "cache_file_lacks_results_of_the_execution_that_wrote_it", dict(lacking=lacking, caching=S.jsonable(kw1), source=S.render(sp)), rp)
     if mode == "cache_deps_of":
         anc = set()
         for i in nn:
@@ -748,7 +857,10 @@ def c18_case(col, rng, cidx, tmpdir, jobref=None):
     recache = None
     if rng.random() < 0.25:
         # from_cache and cache_in together: the restart re-writes a cache file, from which a second restart must work too
-        recache = os.path.join(tmpdir, "c%d_b.pkl" % cidx)
+        # ... possibly the very file it was started from (a pipeline that resumes and checkpoints in place)
+        recache = path if rng.random() < 0.4 else os.path.join(tmpdir, "c%d_b.pkl" % cidx)
+        if recache == path:
+            col.counters["c18_restarts_rewriting_their_own_cache_file"] += 1
         kw2["cache_in"] = recache
     args2 = args
     if dflt18 and any(str(k).endswith(">!>x") for k in cached) and rng.random() < 0.7:
@@ -756,10 +868,23 @@ def c18_case(col, rng, cidx, tmpdir, jobref=None):
         # continues that run - it returns the same value and hands the cached input to whatever still has to run
         args2 = []
         col.counters["c18_restarts_omitting_a_defaulted_cached_input"] += 1
+    restart = lambda: op_exec(dd, kw2, args2)  # noqa: E731
+    if setup18 and rng.random() < 0.3:
+        # the restart executor is BUILT first, then the instance is set up, then the executor is called: what is already set
+        # up by then is not run again
+        exo = dd.executor(**kw2)
+        B.reset_log()
+        rs = probes.run_op("setup_after_restart_executor_was_built", lambda: op_setup(dd, {}))
+        rec(dd, B.snapshot())
+        col.counters["c18_restart_executors_built_before_setup"] += 1
+        if rs[0] != "ok":
+            col.violation(pid, "setup_raised", dict(exc=repr(rs[1])[:300], source=S.render(sp)), rp)
+            return
+        restart = lambda exo=exo: do(dd, lambda: exo(*args2), lambda: _acall(exo, args2))  # noqa: E731
     B.reset_log()
     probes.reset_counts()
     pre_dd = dict(inst_setup.get(id(dd), {}))
-    r2 = probes.run_op("restart_run", lambda: op_exec(dd, kw2, args2))
+    r2 = probes.run_op("restart_run", restart)
     log = B.snapshot()
     ent, _v = observed(log)
     rec(dd, log)
@@ -798,6 +923,13 @@ def c18_case(col, rng, cidx, tmpdir, jobref=None):
         except Exception as e:  # noqa: BLE001
             col.violation(pid, "recached_file_unreadable", dict(exc=repr(e)[:200]), rp2)
             cached2 = None
+        if cached2 is not None and rmode != "cache_deps_of":
+            # "an execution wrote its results with cache_in": the file holds every node of this run's selection, computed or cached
+            lacking = sorted(ids[i] for i in sel2 if ids[i] not in cached2)
+            if lacking:
+                col.violation(pid, "cache_file_lacks_results_of_the_execution_that_wrote_it", dict(
+                    lacking=lacking, same_file_as_from_cache=(recache == path), restart=S.jsonable(kw2), source=S.render(sp)), rp2)
+                cached2 = None
         if cached2 is not None:
             B.reset_log()
             r3 = probes.run_op("second_restart", lambda: op_exec(d2, kw3, args))
